@@ -311,6 +311,40 @@ def gen_live(env, tier, prop, with_axes=False):
             evaluate("same cube object after append() on every dimension")
 
 
+def gen_live_x(env, tier, prop):
+    """the array cube's counterpart of gen_live: the cube holds the caller's arrays (numpy.asarray makes no copy), and one
+    cube OBJECT is evaluated again after the caller has rewritten cells of a dimension array in place: every evaluation is
+    a function of what the arrays hold when it runs"""
+    rnd, gen = env.rnd, env.gen
+    for _ in range(40 if tier == "quick" else 800):
+        nd = rnd.choice([1, 2, 2, 3])
+        extra = [rnd.choice([(), (2,), (3,), (2, 2)]) for _ in range(nd)]
+        if not any(extra) and rnd.random() < 0.7:
+            extra[rnd.randrange(nd)] = (2,)
+        case = gen.shared_case(rnd.choice(["count", "sum", "mean", "valid_count"]), nd=nd, maxrows=6, pad=False, extra=extra)
+        if not len(case.dims[0]):
+            continue
+        arrs = [np.array(d, dtype=np.int64) for d in case.dims]
+        cube = env.xcube(arrs, interacting_shape=tuple(case.ishape))
+        for step in range(3):
+            exc = res = None
+            cur = cb.Case([a.copy() for a in arrs], case.ishape, case.fact, case.weights, case.ignore, case.fmt, case.func)
+            cur.share_args_with(case)
+            try:
+                res = cb.call_cube(cube, cur, rnd)
+                case.share_args_with(cur)
+            except Exception as e:  # noqa
+                exc = "%s: %s" % (type(e).__name__, str(e)[:200])
+            env.rec.record(prop, cur, res, exc, tuple(case.ishape), "xcube",
+                           note={"dtype": "int64", "explicit_shape": True, "live_cube": True,
+                                 "note": "first evaluation" if not step else "same cube object after cells of a dimension array were rewritten in place"},
+                           total=cb.total_of(cur))
+            d = rnd.randrange(nd)
+            for _k in range(rnd.randint(1, 3)):
+                cell = tuple(rnd.randrange(e) for e in arrs[d].shape)
+                arrs[d][cell] = rnd.randrange(case.ishape[d])
+
+
 def gen_c13(env, tier):
     rnd, gen = env.rnd, env.gen
     n_cases = 900 if tier == "quick" else 10000
@@ -617,6 +651,7 @@ def gen_c02_all(env, tier):
 def gen_c13_all(env, tier):
     gen_c13(env, tier)
     gen_live(env, tier, "C13", with_axes=True)
+    gen_live_x(env, tier, "C13")
 
 
 def gen_c05_all(env, tier):
